@@ -23,7 +23,7 @@ if len(sys.argv) > 3 and sys.argv[3] == "avoid":
                  "parameters and entry points):\n" + "\n".join(lines))
 TEXT = (f"""You are helping evaluate a verification effort for the Python library ioflo/hio (a generator-based hierarchical cooperative scheduler with virtual time, plus nonblocking TCP/TLS and HTTP client/server, memo datagram transport, LMDB-backed stores). Your job is to play the adversary: produce realistic, subtle code changes ("seeded bugs") that break ONE stated property of the library.
 
-Your private scratch copy of the repository is the git worktree at /tmp/mut_{pid} (library source under /tmp/mut_{pid}/src/hio, its tests under /tmp/mut_{pid}/tests). Work ONLY inside /tmp/mut_{pid} and write your results to /tmp/mut_{pid}_out/. Do NOT read, list or touch /verif, /repo, /root/.claude or /root/.vp, and do not run git commands that change /repo (git diff / git checkout inside your worktree are fine). Never commit.
+Your private scratch copy of the repository is the git worktree at /tmp/mut_{pid} (library source under /tmp/mut_{pid}/src/hio, its tests under /tmp/mut_{pid}/tests). Work ONLY inside /tmp/mut_{pid} and write your results to /tmp/mut_{pid}_out/. Do NOT read, list or touch /verif, /repo, /root/.claude or /root/.vp, and do not run git commands that change /repo (git diff / git checkout / git apply inside your worktree are fine; do NOT use git stash - the stash is shared by all worktrees). Never commit.
 
 THE PROPERTY ({pid}): {p['title']}
 Statement: {p['statement']}
